@@ -305,19 +305,26 @@ package raft
 //@ func notLeaderError params(r, lost)
 //@   requires r.storage != nil
 //@   ensures result0.Lost == lost
-// STUB (outside area membership): storage.go; appends the config entry at index 1, flushes, sets term 1;
-// storage faults are recovered into the returned error
+// storage.bootstrap: appends the configuration entry at index 1, flushes it, and moves a node that has no term yet
+// to term 1; a node that already adopted a higher term (it heard from a running cluster before it was given a
+// configuration) keeps it (D21). Storage faults are recovered into the returned error.
 //@ func (*storage).bootstrap params(s, config)
-//@   trusted
-//@   requires TermInv(s)
-//@   modifies s.lastLogIndex, s.lastLogTerm, s.gterm, s.gtyp, s.flushed, Log.glast, s.term, s.votedFor, s.termVal.v1, s.termVal.v2, fs
-//@   ensures result0 == nil ==> TermInv(s) && s.term == 1 && s.lastLogIndex == 1 && s.lastLogTerm == 1
+//@   props C05 C08 C15 C19
+//@   requires TermInv(s) && s.log != nil && s.log.glast == s.lastLogIndex && s.flushed <= s.lastLogIndex
+//@   requires [C08.bootstrap-first-entry] s.lastLogIndex == 0 && config.Index == 1 && config.Term == 1
+//@   modifies s.lastLogIndex, s.lastLogTerm, s.gterm, s.gtyp, s.flushed, Log.glast, s.term, s.votedFor, s.termVal.v1, s.termVal.v2, fs, wdata, wlen
+//@   ensures result0 == nil ==> TermInv(s) && s.lastLogIndex == 1 && s.lastLogTerm == 1 && s.log.glast == 1 && s.flushed == 1
+//@   ensures [C08.bootstrap-term] result0 == nil ==> s.term >= 1 && (old(s.term) == 0 ==> s.term == 1)
+//@   ensures [C05+C19.term-monotone] s.term >= old(s.term) && (s.term == old(s.term) ==> s.votedFor == old(s.votedFor))
 
 //@ func (*Raft).bootstrap params(r, t)
-//@   requires RaftWF(r) && r.resolver != nil
-//@   modifies t.task.result, t.task.greplied, r.state, r.leader, r.storage.configs, contents(r.resolver.addrs), r.storage.lastLogIndex, r.storage.lastLogTerm, r.storage.gterm, r.storage.gtyp, r.storage.flushed, Log.glast, r.storage.term, r.storage.votedFor, r.storage.termVal.v1, r.storage.termVal.v2, fs
+//@   requires RaftWF(r) && r.resolver != nil && r.log != nil && r.log.glast == r.lastLogIndex && r.flushed <= r.lastLogIndex
+// (the first entry of every log is a configuration entry: a node without configuration has an empty log)
+//@   requires [PA-inv.unbootstrapped-log-empty] r.configs.Latest.Index == 0 ==> r.lastLogIndex == 0
+//@   modifies t.task.result, t.task.greplied, r.state, r.leader, r.storage.configs, contents(r.resolver.addrs), r.storage.lastLogIndex, r.storage.lastLogTerm, r.storage.gterm, r.storage.gtyp, r.storage.flushed, Log.glast, r.storage.term, r.storage.votedFor, r.storage.termVal.v1, r.storage.termVal.v2, fs, wdata, wlen
 //@   ensures [C08.bootstrap-once] old(r.configs.Latest.Index) > 0 ==> r.configs.Latest == old(r.configs.Latest) && r.configs.Committed == old(r.configs.Committed) && r.state == old(r.state) && r.lastLogIndex == old(r.lastLogIndex) && r.term == old(r.term)
-//@   ensures [C08.bootstrap] r.configs.Latest.Index != old(r.configs.Latest.Index) ==> r.configs.Latest.Index == 1 && r.configs.Latest.Term == 1 && r.configs.Committed == old(r.configs.Latest) && r.state == Candidate && r.lastLogIndex == 1 && r.term == 1
+//@   ensures [C08.bootstrap] r.configs.Latest.Index != old(r.configs.Latest.Index) ==> r.configs.Latest.Index == 1 && r.configs.Latest.Term == 1 && r.configs.Committed == old(r.configs.Latest) && r.state == Candidate && r.lastLogIndex == 1 && r.term >= 1 && (old(r.term) == 0 ==> r.term == 1)
+//@   ensures [C05+C19.term-monotone] r.term >= old(r.term)
 //@   ensures [C08.voter-remains] r.configs.Latest.Index != old(r.configs.Latest.Index) ==> HasVoter(r.configs.Latest) && Anchor(r.configs.Latest) && KeysOK(r.configs.Latest) && CfgStable(r.configs.Latest)
 //@   ensures [C11.bootstrap-self-voter] r.configs.Latest.Index != old(r.configs.Latest.Index) ==> IsVoter(r.configs.Latest, r.nid)
 //@   ensures [C08.bootstrap] r.configs.Latest.Index == old(r.configs.Latest.Index) ==> r.configs.Latest == old(r.configs.Latest) && r.configs.Committed == old(r.configs.Committed) && r.state == old(r.state)
